@@ -209,7 +209,7 @@ func (e *Engine) RunAll(bin string, scs []Scenario, perProc, jobs int) ([]Result
 
 // ---- sampling
 
-var ops = []string{"echoJSON", "echoJSON", "echoJSONStream", "echoForm", "echoMultipart", "echoStream", "variants", "secure"}
+var ops = []string{"echoJSON", "echoJSON", "echoJSONStream", "echoForm", "echoMultipart", "echoStream", "variants", "secure", "secure2"}
 var invalids = []string{"pattern", "regexp2", "multipleOf", "maxLength", "enum", "tagpattern"}
 var readers = []string{"bytes", "bytes", "onebyte", "dataerr", "half"}
 var creds = []string{"header", "basic+query", "bearer", "header", "none", "wrong"}
@@ -231,6 +231,9 @@ func sampleCall(rng *rand.Rand, mode Mode) Call {
 		if mode == ModeC01Clean && rng.Intn(2) == 0 {
 			c.Cred = creds[rng.Intn(3)]
 		}
+	}
+	if c.Op == "secure2" {
+		c.Cred = []string{"h+basic", "h+bearer", "h+basic", "h+bearer", "header", "bearer", "wrong"}[rng.Intn(7)]
 	}
 	invalidP := map[Mode]int{ModeC19: 6, ModeC01Clean: 10, ModeC01Fault: 12, ModeC15: 8}[mode]
 	if (c.Op == "echoJSON" || c.Op == "echoJSONStream") && rng.Intn(invalidP) == 0 {
@@ -558,23 +561,30 @@ func oracleC15(r *CallRecord) []problem {
 			if s.HandlerCalls != 0 || s.Status != 400 {
 				add("a lost required parameter is answered 400", fmt.Sprintf("delivery %d: status %d, handler calls %d", i, s.Status, s.HandlerCalls))
 			}
-		case k == "drop-query" && r.Call.Fault.Arg == "who" && r.Call.Op == "secure":
+		case k == "drop-query" && r.Call.Fault.Arg == "who" && (r.Call.Op == "secure" || r.Call.Op == "secure2"):
 			if s.HandlerCalls != 0 || (s.Status != 400 && s.Status != 401) {
 				add("a lost required parameter is answered 400", fmt.Sprintf("delivery %d: status %d, handler calls %d", i, s.Status, s.HandlerCalls))
 			}
-		case k == "ctype" && r.Call.Op != "secure" && (r.Call.Fault.Arg == "text/weird" || r.Call.Fault.Arg == ";;;" || r.Call.Fault.Arg == ""):
+		case k == "ctype" && r.Call.Op != "secure" && r.Call.Op != "secure2" && (r.Call.Fault.Arg == "text/weird" || r.Call.Fault.Arg == ";;;" || r.Call.Fault.Arg == ""):
 			if s.HandlerCalls != 0 || (s.Status != 415 && s.Status != 400) {
 				add("a wrong or missing content type is answered 415/400", fmt.Sprintf("delivery %d: status %d, handler calls %d", i, s.Status, s.HandlerCalls))
 			}
-		case k == "method" && r.Call.Fault.Arg != "POST" && r.Call.Op != "secure":
+		case k == "method" && r.Call.Fault.Arg != "POST" && r.Call.Op != "secure" && r.Call.Op != "secure2":
 			if s.HandlerCalls != 0 || s.Status != 405 || s.Allow != "POST" {
 				add("an undefined method is answered 405 with Allow", fmt.Sprintf("delivery %d: status %d, Allow %q, handler calls %d", i, s.Status, s.Allow, s.HandlerCalls))
 			}
-		case r.Call.Op == "secure" && (r.Call.Cred == "wrong") && benign(k):
+		case (r.Call.Op == "secure" || r.Call.Op == "secure2") && r.ExpectStatus == 200 &&
+			((k == "drop-header" && (r.Call.Fault.Arg == "X-Api-Key" || r.Call.Fault.Arg == "Authorization")) || (k == "drop-query" && r.Call.Fault.Arg == "api_key")):
+			// every credential set the client offers is exactly one alternative: losing one credential in flight
+			// leaves no alternative satisfied
+			if s.HandlerCalls != 0 || s.Status != 401 {
+				add("a request whose security requirement is no longer met is answered 401 and never reaches the handler", fmt.Sprintf("delivery %d: status %d, handler calls %d, handler saw %s", i, s.Status, s.HandlerCalls, clip(s.ServerSaw, 200)))
+			}
+		case (r.Call.Op == "secure" || r.Call.Op == "secure2") && (r.Call.Cred == "wrong") && benign(k):
 			if s.HandlerCalls != 0 || s.Status != 401 {
 				add("failed security is answered 401 and never reaches the handler", fmt.Sprintf("delivery %d: status %d, handler calls %d", i, s.Status, s.HandlerCalls))
 			}
-		case (k == "dup" || k == "replay") && r.Call.Invalid == "" && r.ExpectErrClass == "" && !(r.Call.Op == "secure" && r.Call.Cred == "wrong"):
+		case (k == "dup" || k == "replay") && r.Call.Invalid == "" && r.ExpectErrClass == "" && !((r.Call.Op == "secure" || r.Call.Op == "secure2") && r.Call.Cred == "wrong"):
 			if s.HandlerCalls != 1 || s.ServerSaw != r.ExpectServerSaw || s.Status != r.ExpectStatus {
 				add("benign redelivery is handled like the original", fmt.Sprintf("delivery %d: status %d (expected %d), handler calls %d", i, s.Status, r.ExpectStatus, s.HandlerCalls))
 			}
@@ -636,7 +646,7 @@ type spec struct {
 }
 
 var specs = map[string]spec{
-	"C19": {id: "C19", modes: []Mode{ModeC19}, nQuick: []int{1400}, nThor: []int{40000}, race: 4,
+	"C19": {id: "C19", modes: []Mode{ModeC19}, nQuick: []int{5000}, nThor: []int{150000}, race: 4,
 		apply: func(res *Result) []problem {
 			var out []problem
 			aloneBy := map[[2]int]*CallRecord{}
@@ -651,7 +661,7 @@ var specs = map[string]spec{
 			}
 			return out
 		}},
-	"C01": {id: "C01", modes: []Mode{ModeC01Clean, ModeC01Fault}, nQuick: []int{1800, 1200}, nThor: []int{60000, 40000}, race: 0,
+	"C01": {id: "C01", modes: []Mode{ModeC01Clean, ModeC01Fault}, nQuick: []int{12000, 8000}, nThor: []int{600000, 400000}, race: 0,
 		apply: func(res *Result) []problem {
 			var out []problem
 			for _, c := range res.Alone {
@@ -662,7 +672,7 @@ var specs = map[string]spec{
 			}
 			return out
 		}},
-	"C15": {id: "C15", modes: []Mode{ModeC15}, nQuick: []int{3000}, nThor: []int{100000}, race: 0,
+	"C15": {id: "C15", modes: []Mode{ModeC15}, nQuick: []int{20000}, nThor: []int{1000000}, race: 0,
 		apply: func(res *Result) []problem {
 			var out []problem
 			for _, c := range res.Alone {
